@@ -88,6 +88,29 @@ func authMessage(p int, issue uint64, body int) pcommon.DmqMessage {
 	return cloneDmq(msg)
 }
 
+// authMessageForeignKes is pool p's message number (issue, body) whose KES key
+// and KES signature are pool q's (valid for the payload), while the cold
+// signature is the genuine one over pool p's own KES key.
+func authMessageForeignKes(p int, issue uint64, body int, q int) pcommon.DmqMessage {
+	m := authMessage(p, issue, body)
+	payloadCbor, err := cbor.Encode(m.Payload)
+	if err != nil {
+		panic(err)
+	}
+	wrapped, err := cbor.Encode(payloadCbor)
+	if err != nil {
+		panic(err)
+	}
+	other := getAuthPools()[q]
+	sig, err := kes.Sign(other.kesSk, 0, wrapped)
+	if err != nil {
+		panic(err)
+	}
+	m.KESSignature = sig
+	m.OperationalCertificate.KESVerificationKey = append([]byte(nil), other.kesPk...)
+	return m
+}
+
 func cloneDmq(m pcommon.DmqMessage) pcommon.DmqMessage {
 	c := m
 	c.MessageID = append([]byte(nil), m.MessageID...)
